@@ -27,9 +27,122 @@ func (u *Unit) giveUp(pos token.Pos, format string, a ...any) {
 
 // ---------- pre-scan ----------
 
+// classifyLits finds function literals that can be executed inline where they are called: immediately invoked literals
+// (`func(){...}()`, not under go/defer) and literals bound once to a local variable that is only ever called.
+func (u *Unit) classifyLits(body ast.Node) {
+	u.inlineLit = map[*ast.FuncLit]bool{}
+	u.litOfVar = map[*types.Var]*ast.FuncLit{}
+	hasDefer := func(fl *ast.FuncLit) bool {
+		found := false
+		ast.Inspect(fl.Body, func(n ast.Node) bool {
+			switch n.(type) {
+			case *ast.DeferStmt:
+				found = true
+			case *ast.FuncLit:
+				return false
+			}
+			return true
+		})
+		return found
+	}
+	var stack []ast.Node
+	candidates := map[*types.Var]*ast.FuncLit{}
+	bad := map[*types.Var]bool{}
+	ast.Inspect(body, func(n ast.Node) bool {
+		if n == nil {
+			stack = stack[:len(stack)-1]
+			return true
+		}
+		var parent, grand ast.Node
+		if len(stack) > 0 {
+			parent = stack[len(stack)-1]
+		}
+		if len(stack) > 1 {
+			grand = stack[len(stack)-2]
+		}
+		switch x := n.(type) {
+		case *ast.FuncLit:
+			if call, ok := parent.(*ast.CallExpr); ok && call.Fun == x {
+				_, isGo := grand.(*ast.GoStmt)
+				_, isDefer := grand.(*ast.DeferStmt)
+				if !isGo && !isDefer && !hasDefer(x) {
+					u.inlineLit[x] = true
+				}
+			}
+			if as, ok := parent.(*ast.AssignStmt); ok && as.Tok == token.DEFINE && len(as.Lhs) == 1 && len(as.Rhs) == 1 && as.Rhs[0] == x {
+				if id, ok := as.Lhs[0].(*ast.Ident); ok {
+					if v, ok := u.info.Defs[id].(*types.Var); ok && !hasDefer(x) {
+						candidates[v] = x
+					}
+				}
+			}
+		case *ast.Ident:
+			if v, ok := u.info.Uses[x].(*types.Var); ok {
+				call, isCall := parent.(*ast.CallExpr)
+				okUse := isCall && call.Fun == x
+				if okUse {
+					if _, isGo := grand.(*ast.GoStmt); isGo {
+						okUse = false
+					}
+					if _, isDefer := grand.(*ast.DeferStmt); isDefer {
+						okUse = false
+					}
+				}
+				if !okUse {
+					bad[v] = true
+				}
+			}
+		case *ast.AssignStmt:
+			if x.Tok != token.DEFINE {
+				for _, l := range x.Lhs {
+					if id, ok := l.(*ast.Ident); ok {
+						if v, ok := u.info.Uses[id].(*types.Var); ok {
+							bad[v] = true
+						}
+					}
+				}
+			}
+		}
+		stack = append(stack, n)
+		return true
+	})
+	for v, fl := range candidates {
+		if !bad[v] {
+			// no self-reference
+			self := false
+			ast.Inspect(fl.Body, func(n ast.Node) bool {
+				if id, ok := n.(*ast.Ident); ok && u.info.Uses[id] == v {
+					self = true
+				}
+				return true
+			})
+			if !self {
+				u.inlineLit[fl] = true
+				u.litOfVar[v] = fl
+			}
+		}
+	}
+}
+
+// inlineTarget: the literal a call executes inline, if any.
+func (u *Unit) inlineTarget(call *ast.CallExpr) *ast.FuncLit {
+	switch f := ast.Unparen(call.Fun).(type) {
+	case *ast.FuncLit:
+		if u.inlineLit[f] {
+			return f
+		}
+	case *ast.Ident:
+		if v, ok := u.info.Uses[f].(*types.Var); ok {
+			return u.litOfVar[v]
+		}
+	}
+	return nil
+}
+
 func (u *Unit) prescan(body ast.Node) {
 	u.boxed = map[*types.Var]bool{}
 	u.volatile = map[*types.Var]bool{}
+	u.classifyLits(body)
 	var inLit int
 	var litStack []*ast.FuncLit
 	local := func(id *ast.Ident) *types.Var {
@@ -63,6 +176,9 @@ func (u *Unit) prescan(body ast.Node) {
 	walk = func(n ast.Node) bool {
 		switch n := n.(type) {
 		case *ast.FuncLit:
+			if u.inlineLit[n] {
+				return true // executed inline: its assignments are ordinary assignments
+			}
 			inLit++
 			litStack = append(litStack, n)
 			ast.Inspect(n.Body, walk)
@@ -171,10 +287,12 @@ func (u *Unit) assignedVars(n ast.Node) []*types.Var {
 			}
 		}
 	}
-	ast.Inspect(n, func(n ast.Node) bool {
+	var visit func(n ast.Node) bool
+	seenLit := map[*ast.FuncLit]bool{}
+	visit = func(n ast.Node) bool {
 		switch n := n.(type) {
 		case *ast.FuncLit:
-			return false
+			return u.inlineLit[n]
 		case *ast.AssignStmt:
 			for _, l := range n.Lhs {
 				add(l)
@@ -189,6 +307,10 @@ func (u *Unit) assignedVars(n ast.Node) []*types.Var {
 				add(n.Value)
 			}
 		case *ast.CallExpr:
+			if fl := u.inlineTarget(n); fl != nil && !seenLit[fl] {
+				seenLit[fl] = true
+				ast.Inspect(fl.Body, visit)
+			}
 			// pointer-receiver calls on non-boxed struct values (fields, elements) are copy-in/copy-out: they modify the container
 			if se, ok := ast.Unparen(n.Fun).(*ast.SelectorExpr); ok {
 				if sel, ok := u.info.Selections[se]; ok && sel.Kind() == types.MethodVal {
@@ -213,17 +335,20 @@ func (u *Unit) assignedVars(n ast.Node) []*types.Var {
 			}
 		}
 		return true
-	})
+	}
+	ast.Inspect(n, visit)
 	return out
 }
 
 // writesHeap reports whether n may write any heap (coarse: any call other than known-pure ones, or a heap store).
 func (u *Unit) loopHeapEffects(n ast.Node) (all bool, some map[string]bool) {
 	some = map[string]bool{}
-	ast.Inspect(n, func(n ast.Node) bool {
+	seenLit := map[*ast.FuncLit]bool{}
+	var visit func(n ast.Node) bool
+	visit = func(n ast.Node) bool {
 		switch n := n.(type) {
 		case *ast.FuncLit:
-			return false
+			return u.inlineLit[n]
 		case *ast.GoStmt, *ast.DeferStmt, *ast.SendStmt, *ast.SelectStmt:
 			all = true
 		case *ast.AssignStmt:
@@ -253,6 +378,13 @@ func (u *Unit) loopHeapEffects(n ast.Node) (all bool, some map[string]bool) {
 			}
 			callee, _ := u.staticCallee(n)
 			if callee == nil {
+				if fl := u.inlineTarget(n); fl != nil {
+					if !seenLit[fl] {
+						seenLit[fl] = true
+						ast.Inspect(fl.Body, visit)
+					}
+					return true
+				}
 				if id, ok := ast.Unparen(n.Fun).(*ast.Ident); ok && u.ct != nil && u.ct.FnPure[id.Name] {
 					return true
 				}
@@ -262,6 +394,10 @@ func (u *Unit) loopHeapEffects(n ast.Node) (all bool, some map[string]bool) {
 			if ct, _ := u.eng.contractFor(callee); ct != nil {
 				if ct.ModifiesAll {
 					all = true
+				}
+				if !declaresGhostFrame(ct) {
+					some[u.ghostHeap("consumed")] = true
+					some[u.ghostHeap("written")] = true
 				}
 				if len(ct.Modifies) > 0 {
 					sig := callee.Type().(*types.Signature)
@@ -335,7 +471,8 @@ func (u *Unit) loopHeapEffects(n ast.Node) (all bool, some map[string]bool) {
 			all = true
 		}
 		return true
-	})
+	}
+	ast.Inspect(n, visit)
 	return
 }
 
@@ -640,6 +777,10 @@ func (u *Unit) exec(st *State, s ast.Stmt) *State {
 		}
 		return st
 	case *ast.ReturnStmt:
+		if len(u.inlineStack) > 0 {
+			u.inlineReturn(st, s)
+			return nil
+		}
 		u.execReturn(st, s)
 		return nil
 	case *ast.IfStmt:
@@ -901,7 +1042,14 @@ func (u *Unit) checkPost(st *State, pos token.Pos) {
 	if u.ct != nil {
 		env := &SpecEnv{u: u, st: st, old: u.entry, names: names, cs: u.cs, pkg: u.pkg.Types, own: true, scopePos: u.endPos}
 		for i, en := range u.ct.Ensures {
+			nerr := len(u.specErrors)
+			env.outOfScope = false
 			g := env.evalBool(en.Expr)
+			if env.outOfScope {
+				// the clause names a local that is not declared yet on this path: it says nothing about this return
+				u.specErrors = u.specErrors[:nerr]
+				continue
+			}
 			u.emit(st, "post", fmt.Sprintf("post#%d", i), "ensures "+en.Text, pos, g)
 		}
 		if !u.mentionsHeld {
@@ -971,8 +1119,12 @@ func (u *Unit) frameGoals(st *State, only map[string]bool) []frameGoal {
 		}
 	}
 	alloc0 := u.entry.alloc
+	ghostFrame := declaresGhostFrame(u.ct)
 	for _, h := range sortedKeys(u.c.heapNames) {
 		if mapMods[h] || (only != nil && !only[h]) {
+			continue
+		}
+		if strings.HasPrefix(h, "HG_") && !ghostFrame {
 			continue
 		}
 		end := u.heapCur(st, h)
@@ -1097,13 +1249,22 @@ func (u *Unit) havocLoop(st *State, body ast.Node, extra []*types.Var) {
 // held(), or a call of an uncontracted repository function (contracted functions without held() preserve the lock state).
 func (u *Unit) locksTouched(n ast.Node) bool {
 	touched := false
-	ast.Inspect(n, func(n ast.Node) bool {
+	seenLit := map[*ast.FuncLit]bool{}
+	var visit func(n ast.Node) bool
+	visit = func(n ast.Node) bool {
 		switch n := n.(type) {
 		case *ast.FuncLit:
-			return false
+			return u.inlineLit[n]
 		case *ast.CallExpr:
 			callee, _ := u.staticCallee(n)
 			if callee == nil {
+				if fl := u.inlineTarget(n); fl != nil {
+					if !seenLit[fl] {
+						seenLit[fl] = true
+						ast.Inspect(fl.Body, visit)
+					}
+					return true
+				}
 				if tv, ok := u.info.Types[n.Fun]; ok && tv.IsType() {
 					return true
 				}
@@ -1137,7 +1298,8 @@ func (u *Unit) locksTouched(n ast.Node) bool {
 			}
 		}
 		return true
-	})
+	}
+	ast.Inspect(n, visit)
 	return touched
 }
 
@@ -1641,4 +1803,124 @@ func (u *Unit) execSelect(st *State, s *ast.SelectStmt) *State {
 // sortVars orders variables deterministically.
 func sortVars(vs []*types.Var) {
 	sort.Slice(vs, func(i, j int) bool { return vs[i].Pos() < vs[j].Pos() })
+}
+
+// ---------- inline execution of function literals ----------
+
+type inlineFrame struct {
+	results []*types.Var
+	rets    []*State
+}
+
+func (u *Unit) inlineReturn(st *State, s *ast.ReturnStmt) {
+	fr := u.inlineStack[len(u.inlineStack)-1]
+	if len(s.Results) > 0 {
+		if len(s.Results) == 1 && len(fr.results) > 1 {
+			t := u.eval(st, s.Results[0])
+			if t.IsTuple() {
+				for i, rv := range fr.results {
+					if i < len(t.Tuple) {
+						u.writeVar(st, rv, u.coerce(st, t.Tuple[i], rv.Type()))
+					}
+				}
+			}
+		} else {
+			var vals []Term
+			for i, r := range s.Results {
+				vals = append(vals, u.evalAs(st, r, fr.results[i].Type()))
+			}
+			for i, rv := range fr.results {
+				u.writeVar(st, rv, vals[i])
+			}
+		}
+	}
+	if u.isDead(st) {
+		return
+	}
+	fr.rets = append(fr.rets, st)
+}
+
+// execLitInline runs the body of a function literal at its call site (same verification unit, no contract needed).
+func (u *Unit) execLitInline(st *State, e *ast.CallExpr, fl *ast.FuncLit) Term {
+	sig, _ := u.typeOf(fl).(*types.Signature)
+	if sig == nil || len(u.inlineStack) > 4 {
+		return u.abstractExpr(st, e, "function literal")
+	}
+	// arguments
+	var args []Term
+	if len(e.Args) == 1 && sig.Params().Len() > 1 {
+		t := u.eval(st, e.Args[0])
+		args = t.Tuple
+	} else {
+		for i, a := range e.Args {
+			var pt types.Type
+			if i < sig.Params().Len() {
+				pt = sig.Params().At(i).Type()
+			}
+			if sig.Variadic() && i >= sig.Params().Len()-1 {
+				return u.abstractExpr(st, e, "variadic function literal")
+			}
+			args = append(args, u.evalAs(st, a, pt))
+		}
+	}
+	k := 0
+	for _, f := range fl.Type.Params.List {
+		for _, n := range f.Names {
+			if v, ok := u.info.Defs[n].(*types.Var); ok && k < len(args) {
+				u.declareVar(st, v, u.coerce(st, args[k], v.Type()))
+			}
+			k++
+		}
+		if len(f.Names) == 0 {
+			k++
+		}
+	}
+	fr := &inlineFrame{}
+	if fl.Type.Results != nil {
+		idx := 0
+		for _, f := range fl.Type.Results.List {
+			if len(f.Names) == 0 {
+				rv := types.NewVar(fl.Pos(), u.pkg.Types, fmt.Sprintf("litret%d_%d", len(u.inlineStack), idx), sig.Results().At(idx).Type())
+				fr.results = append(fr.results, rv)
+				u.declareVar(st, rv, u.zeroOf(rv.Type()))
+				idx++
+				continue
+			}
+			for _, n := range f.Names {
+				rv, _ := u.info.Defs[n].(*types.Var)
+				if rv == nil {
+					rv = types.NewVar(fl.Pos(), u.pkg.Types, fmt.Sprintf("litret%d_%d", len(u.inlineStack), idx), sig.Results().At(idx).Type())
+				}
+				fr.results = append(fr.results, rv)
+				u.declareVar(st, rv, u.zeroOf(rv.Type()))
+				idx++
+			}
+		}
+	}
+	base := st.clone()
+	u.inlineStack = append(u.inlineStack, fr)
+	savedLoops := u.loopStack
+	u.loopStack = nil
+	work := st.clone()
+	end := u.execBlock(work, fl.Body.List)
+	u.loopStack = savedLoops
+	u.inlineStack = u.inlineStack[:len(u.inlineStack)-1]
+	outs := append([]*State{}, fr.rets...)
+	if end != nil && sig.Results().Len() == 0 {
+		outs = append(outs, end)
+	}
+	merged := u.merge(base, outs)
+	if merged == nil {
+		st.assume("false") // the literal never returns normally
+		return Term{Tuple: []Term{}}
+	}
+	*st = *merged
+	var rs []Term
+	for _, rv := range fr.results {
+		rs = append(rs, u.readVar(st, rv, fl.Pos()))
+	}
+	if rs == nil {
+		rs = []Term{}
+	}
+	return resultTerm(rs)
 }
